@@ -92,6 +92,7 @@ func main() {
 	tier := os.Getenv("VERIF_TIER")
 	replay := ""
 	secs := 0
+	selftest := 0
 	for i := 2; i < len(os.Args); i++ {
 		switch os.Args[i] {
 		case "--tier":
@@ -103,6 +104,9 @@ func main() {
 		case "--secs":
 			i++
 			secs, _ = strconv.Atoi(os.Args[i])
+		case "--selftest":
+			i++
+			selftest, _ = strconv.Atoi(os.Args[i])
 		}
 	}
 	if tier == "" {
@@ -122,6 +126,9 @@ func main() {
 	bin, sites := build(spec)
 	if replay != "" {
 		os.Exit(doReplay(spec, bin, sites, replay))
+	}
+	if selftest > 0 {
+		os.Exit(doSelftest(spec, bin, sites, seed*1000003, selftest))
 	}
 	budget := spec.QuickSecs
 	if tier == "thorough" {
@@ -720,5 +727,72 @@ func doReplay(spec *checkSpec, bin, sites, file string) int {
 		return 1
 	}
 	fmt.Printf("OK replay of %s shows no violation\n", file)
+	return 0
+}
+
+// doSelftest proves determinism on a sample: every seed is run in fresh processes under GOMAXPROCS 1, 4
+// and 16 (twice at 4) and the run signatures (schedule + disk events + operations), step counts, disk
+// event counts and violation classes must be identical.
+func doSelftest(spec *checkSpec, bin, sites string, base uint64, n int) int {
+	outDir := filepath.Join(root, "_build", "runs", spec.ID+"-selftest")
+	os.RemoveAll(outDir)
+	os.MkdirAll(outDir, 0o755)
+	bad := 0
+	total := 0
+	for _, cfg := range spec.Cfgs {
+		type key struct{ seed uint64 }
+		ref := map[uint64]string{}
+		for i, mp := range []int{4, 1, 16, 4} {
+			// split the seeds over 8 processes to keep it quick
+			var wg sync.WaitGroup
+			parts := 8
+			outs := make([]string, parts)
+			for k := 0; k < parts; k++ {
+				wg.Add(1)
+				outs[k] = filepath.Join(outDir, fmt.Sprintf("%s-%d-%d.jsonl", cfg.Name, i, k))
+				go func(k int) {
+					defer wg.Done()
+					cmd := exec.Command(bin, "-test.run", "^TestWorker$", "-test.timeout", "0")
+					cmd.Env = append(os.Environ(), "DSIM_MODE=seeds", fmt.Sprintf("DSIM_SEEDS=%d:%d:%d", base+uint64(k), (n+parts-1)/parts, parts),
+						"DSIM_CFG="+cfg.Cfg, "DSIM_OUT="+outs[k], "DSIM_SITES="+sites, fmt.Sprintf("GOMAXPROCS=%d", mp))
+					cmd.Run()
+				}(k)
+			}
+			wg.Wait()
+			for _, o := range outs {
+				f, err := os.Open(o)
+				if err != nil {
+					continue
+				}
+				sc := bufio.NewScanner(f)
+				sc.Buffer(make([]byte, 1<<20), 1<<28)
+				for sc.Scan() {
+					var r result
+					if json.Unmarshal(sc.Bytes(), &r) != nil || r.Start != nil || r.Watchdog != nil {
+						continue
+					}
+					cls := []string{}
+					for _, v := range r.Viol {
+						cls = append(cls, v.Class)
+					}
+					fp := fmt.Sprintf("sig=%s steps=%d fs=%d viol=%v", r.Sig, r.Steps, r.FSEvents, cls)
+					if i == 0 {
+						ref[r.Seed] = fp
+						total++
+					} else if ref[r.Seed] != fp {
+						bad++
+						if bad <= 10 {
+							fmt.Printf("NONDETERMINISTIC cfg=%s seed=%d GOMAXPROCS=%d:\n  ref: %s\n  got: %s\n", cfg.Name, r.Seed, mp, ref[r.Seed], fp)
+						}
+					}
+				}
+				f.Close()
+			}
+		}
+	}
+	fmt.Printf("selftest %s: %d seeds x 4 processes (GOMAXPROCS 4,1,16,4), %d mismatches\n", spec.ID, total, bad)
+	if bad > 0 {
+		return 2
+	}
 	return 0
 }
